@@ -81,6 +81,11 @@ def cases(draw):
         kotlin_error_attrs(prog)
     if draw(st.booleans()):
         draw(S.decorate(prog))
+    if draw(st.integers(0, 2)) == 0:
+        # most types get one of four namespaces: headers then forward-declare types of several namespaces (hash-ordered tables show up there)
+        for _, it in ir.all_items(prog):
+            if draw(st.integers(0, 3)) != 0 and not any("namespace" in a for a in it["attrs"]):
+                it["attrs"].append('#[diplomat::attr(auto, namespace = "%s")]' % draw(st.sampled_from(["ns1", "ns2", "ns1::inner", "outer::mid::deep"])))
     # R2: permutation
     perm = copy.deepcopy(prog)
     mods = list(range(len(perm["modules"])))
